@@ -44,6 +44,38 @@ def run(repo, chk, tier):
         digest(repo, chk, fn, comb)
         name_and_space(repo, chk, fn, comb, frame, args)
     append_only(repo, chk, fn, frame)
+    relabelling(repo, chk, fn, frame)
+
+
+def relabelling(repo, chk, fn, frame):
+    """C10.3b - a combined column is named after the constituents its values were computed from: the labels of the frame of new columns (and of
+    the result) are never re-assigned without moving the data.  `F.columns = <re-ordering of F.columns>` renames the columns in place - the hash
+    of one combination ends up under the name of another; any other re-labelling of these frames is left inconclusive."""
+    m = fn.module
+    found = []
+    for n in own_nodes(fn.node):
+        tgt = None
+        if isinstance(n, ast.Assign) and len(n.targets) == 1 and isinstance(n.targets[0], ast.Attribute) and n.targets[0].attr == 'columns':
+            tgt, val = n.targets[0].value, n.value
+        elif isinstance(n, ast.Call) and isinstance(n.func, ast.Attribute) and n.func.attr in ('set_axis', 'rename', 'rename_axis', 'add_prefix', 'add_suffix', 'set_names'):
+            tgt, val = n.func.value, n
+        if tgt is None:
+            continue
+        base = ast.unparse(tgt)
+        if isinstance(val, ast.Call) and isinstance(n, ast.Assign):
+            d = m.dotted(val.func) or ''
+            reorder = (isinstance(val.func, ast.Name) and val.func.id in ('sorted', 'reversed')) or d in ('numpy.sort', 'numpy.flip', 'numpy.roll', 'numpy.random.permutation', 'random.sample')
+            reads_own = any(isinstance(x, ast.Attribute) and x.attr == 'columns' and ast.unparse(x.value) == base for x in ast.walk(val))
+            if reorder and reads_own:
+                found.append((n, 'bad', f'`{ast.unparse(n)[:90]}` assigns a re-ordering of the labels to the same frame: the columns are renamed, the data does not move, so the value computed for one combination is reported under the name of another'))
+                continue
+            if reads_own and isinstance(val.func, ast.Name) and val.func.id in ('list', 'tuple') and len(val.args) == 1 and ast.unparse(val.args[0]) == f'{base}.columns':
+                continue      # the same labels
+        found.append((n, 'unsure', f'`{ast.unparse(n)[:90]}` re-labels a frame of compute_combined_features: whether every combined column keeps the name of its constituents is not decided'))
+    for n, kind, why in found:
+        (chk.bad if kind == 'bad' else chk.unsure)('C10.3b', 'R5', fn.site(n), ast.unparse(n).replace('\n', ' ')[:100], why)
+    if not found:
+        chk.ok('C10.3b', 'R5', fn.site(), 'no re-labelling of the frames of compute_combined_features', 'a combined column keeps the name under which its values were computed')
 
 
 def _rep(t, a, b):
